@@ -284,6 +284,40 @@ func runC14(p *core.Prog, r *core.Report) {
 				if mi, ok := v.(*ssa.MakeInterface); ok {
 					check(sx.Unspill(mi.X))
 				}
+				// a fresh record struct holding the value (`&panicRecord{value: r}`): every field stored is the recovered value
+				if a, ok := v.(*ssa.Alloc); ok && !isRec && a.Referrers() != nil {
+					if _, isStruct := ptrTo(a.Type()).Underlying().(*types.Struct); isStruct {
+						nF, all := 0, true
+						for _, u := range *a.Referrers() {
+							fa, isFA := u.(*ssa.FieldAddr)
+							if !isFA || fa.Referrers() == nil {
+								continue
+							}
+							for _, uu := range *fa.Referrers() {
+								st, isSt := uu.(*ssa.Store)
+								if !isSt || st.Addr != ssa.Value(fa) {
+									continue
+								}
+								nF++
+								saved := isRec
+								isRec = false
+								sv := sx.Unspill(st.Val)
+								if mi, isMI := sv.(*ssa.MakeInterface); isMI {
+									sv = sx.Unspill(mi.X)
+								}
+								check(sv)
+								if !isRec {
+									all = false
+									other = "a field of the record published is assigned " + short(sx.ValPath(st.Val)) + " at " + p.Pos(st.Pos())
+								}
+								isRec = saved
+							}
+						}
+						if nF > 0 && all {
+							isRec = true
+						}
+					}
+				}
 				if isRec {
 					found = true
 					// the pointer published must be to a cell that is fresh for this panic
@@ -297,6 +331,34 @@ func runC14(p *core.Prog, r *core.Report) {
 							}
 						}
 						r.Check(fresh, "C14-R2", "last-panic slot publishes a cell that is fresh for each panic", p.Pos(in.Pos()), "the address stored is a variable of the recovering closure's own invocation", "the address published is a variable that outlives the panic (declared outside the deferred closure): the next panic on the same worker overwrites it in place while Status() reads it — a data race and possibly a torn value")
+					}
+					// every recovered value is published: between `recover() != nil` and the store there is no further condition
+					// (only while the context is live, only for error values, …) under which a contained panic leaves no trace
+					{
+						var recCall *ssa.Call
+						sx.Instrs(f, func(i2 ssa.Instruction) {
+							if cc, ok := i2.(*ssa.Call); ok && isBuiltin(cc, "recover") {
+								recCall = cc
+							}
+						})
+						if recCall != nil {
+							_, nonNil := sx.NilEdges(recCall)
+							skipped := ""
+							for e := range nonNil {
+								tb := e.To()
+								if len(tb.Instrs) == 0 || tb.Instrs[0] == in {
+									continue
+								}
+								for _, ret := range sx.Returns(f) {
+									if tb.Instrs[0] == ssa.Instruction(ret) || sx.ReachInstr(f, tb.Instrs[0], ret, sx.Cut{Instrs: map[ssa.Instruction]bool{in: true}}) {
+										skipped = p.Pos(ret.Pos())
+									}
+								}
+							}
+							if len(nonNil) > 0 {
+								r.Check(skipped == "", "C14-R2", "every recovered value reaches the last-panic slot", p.Pos(in.Pos()), "the store follows `recover() != nil` unconditionally", "a path from `recover() != nil` leaves the recovering closure without storing the value: some contained panics (after cancellation, of certain types, …) are not reported by Status().LastPanic")
+							}
+						}
 					}
 					r.Check(!strings.Contains(sx.CalleeName(c), "atomic.Value"), "C14-R2", "last-panic slot accepts any dynamic type", p.Pos(in.Pos()), sx.CalleeName(c)+" of a pointer to the recovered value", "atomic.Value.Store panics on the second panic value of a different dynamic type")
 				}
